@@ -1,79 +1,73 @@
-(* C08 — table filter semantics from command line to output.   VARIANT FOR THE CURRENT TREE
-   (finding F4 present).  After main.go is repaired replace this file by
-   coq/alt/C08_after_fix.v.txt (full theorem, no refutations).
+(* C08 — table filter semantics from command line to output.   VARIANT FOR THE REPAIRED TREE.
+   NOT COMPILED while finding F4 is present (the file name does not end in .v).
+   To switch after the fix to main/main.go (see the patch in registry/32_filter.json / the report):
+     1. cp coq/alt/C08_after_fix.v.txt coq/props/C08.v
+     2. in coq/proofs/FilterProofs.v delete the section "finding F4" (lemmas cli_cfg_wlr_today,
+        cli_cfg_blr_today, cli_refuted_wlr, cli_refuted_blr, cli_statement_refuted,
+        cli_exclusive_refuted, cli_combination_today): they are true of the old chain only and stop
+        compiling against the regenerated GenCli.v.  cli_partial and everything else stays.
+     3. mark F4-C08 "fixed" in known_findings.json; the corpus cases corpus/CLI/f4_*.json stay
+        (they then run silently).
+   The two proofs below need nothing else: they compute the regenerated chain on a non-empty list.
 
    Regular-expression matching is the oracle M : item -> relation -> bool = Go's
    regexp.MatchString (an unanchored search); a user regexp that does not compile is outside the
-   domain (hypothesis regs_compile; see C08_filter_stage_panic_prefix for what happens then).
-   cli_filter_cfg comes from gen/GenCli.v, re-translated from main/main.go on every run. *)
+   domain.  cli_filter_cfg comes from gen/GenCli.v, re-translated from main/main.go on every run. *)
 From Bifrost.model Require Import Base Filter.
 From Bifrost.gen Require Import GenCli.
 From Bifrost.proofs Require Import FilterProofs.
 
-(* Stage, all configurations, all streams: the output is the input filtered by
-   (BEGIN/COMMIT or decide), in input order. *)
 Theorem C08_filter_stage : forall c bad M ms,
   regs_compile c bad ->
   stage c bad M ms = Done (List.filter (fun m => is_marker m || decide c M (f_rel m)) ms).
 Proof. exact stage_filter. Qed.
 Print Assumptions C08_filter_stage.
 
-(* decide is the user's intent for each of the four kinds of list and for no filter *)
 Theorem C08_decide_permitted : forall kind lst M rel,
   decide (cfg_of kind lst) M rel = true <-> permitted kind lst M rel.
 Proof. exact decide_permitted. Qed.
 Print Assumptions C08_decide_permitted.
 
-(* outside the domain: a nil *Regexp panics, the stage stops; what was forwarded is a prefix of
-   the intended output (nothing wrong is ever forwarded) *)
 Theorem C08_filter_stage_panic_prefix : forall c bad M ms,
   exists rest, List.filter (fun m => is_marker m || decide c M (f_rel m)) ms
                = forwarded (stage c bad M ms) ++ rest.
 Proof. exact stage_prefix. Qed.
 Print Assumptions C08_filter_stage_panic_prefix.
 
-(* Command line.  Full statement (C08_cli_statement):
-     forall kind lst, lst <> [] -> forall c, cli_cfg (flags_of kind lst) = Some c ->
-     forall M rel, decide c M rel = true <-> permitted kind lst M rel.
-   It is FALSE for today's main.go (finding F4): *)
-Theorem C08_cli_refuted :
-  ~ C08_cli_statement /\
-  (exists lst c, lst <> [] /\ cli_cfg (flags_of WLR lst) = Some c /\
-     decide c (matrix_fn f4_matrix) "public.b" = true /\ ~ permitted WLR lst (matrix_fn f4_matrix) "public.b") /\
-  (exists lst c, lst <> [] /\ cli_cfg (flags_of BLR lst) = Some c /\
-     decide c (matrix_fn f4_matrix) "public.a" = true /\ ~ permitted BLR lst (matrix_fn f4_matrix) "public.a").
-Proof. exact (conj cli_statement_refuted (conj cli_refuted_wlr cli_refuted_blr)). Qed.
-Print Assumptions C08_cli_refuted.
+(* the repaired chain hands filter.New exactly the configuration each kind needs *)
+Lemma cli_cfg_repaired : forall kind x l,
+  cli_cfg (flags_of kind (x :: l)) = Some (cfg_of kind (x :: l)).
+Proof. intros kind x l. destruct kind; reflexivity. Qed.
 
-(* the strongest true restriction: --whitelist, --blacklist and no filter flag work *)
-Theorem C08_cli_partial : forall kind, kind = WL \/ kind = BL \/ kind = NoFilter ->
-  forall lst, lst <> [] -> forall c, cli_cfg (flags_of kind lst) = Some c ->
+(* Command line, full statement: each flag given alone means what the user meant. *)
+Theorem C08_cli : forall kind lst, lst <> [] ->
+  forall c, cli_cfg (flags_of kind lst) = Some c ->
   forall M rel, decide c M rel = true <-> permitted kind lst M rel.
-Proof. exact cli_partial. Qed.
-Print Assumptions C08_cli_partial.
+Proof. intros kind. apply cli_ok_from_cfg. intros x l. apply cli_cfg_repaired. Qed.
+Print Assumptions C08_cli.
 
 Theorem C08_cli_nofilter : forall c M rel, cli_cfg ([], [], [], []) = Some c -> decide c M rel = true.
 Proof. exact cli_nofilter_all. Qed.
 Print Assumptions C08_cli_nofilter.
 
-(* second half of F4: the four flags are documented as mutually exclusive
-   (forall f, 2 <= flags_given f -> cli_cfg f = None), but the test is a conjunction of all four *)
-Theorem C08_cli_exclusive_refuted : ~ C08_cli_exclusive_statement.
-Proof. exact cli_exclusive_refuted. Qed.
-Print Assumptions C08_cli_exclusive_refuted.
+(* the four flags are mutually exclusive: any two of them are refused *)
+Theorem C08_cli_exclusive : forall f, 2 <= flags_given f -> cli_cfg f = None.
+Proof.
+  intros [[[wl bl] wlr] blr] H.
+  destruct wl, bl, wlr, blr; try reflexivity; simpl in H; lia.
+Qed.
+Print Assumptions C08_cli_exclusive.
 
 (* ---- non-vacuity ---- *)
-(* a stream with quoted, dotted and multi-table TRUNCATE relations through a regexp whitelist *)
 Example C08_stage_nonvacuous :
-  let c := (true, true, [f4_rx]) in
+  let c := (true, true, ["^public\.a$"]) in
+  let mx := [("^public\.a$", "public.a")] in
   let ms := [mkF 0 "BEGIN" ""; mkF 1 "INSERT" "public.a"; mkF 2 "UPDATE" "public.""A.b""";
              mkF 3 "TRUNCATE" "public.a, public.b"; mkF 4 "COMMIT" ""] in
   regs_compile c (fun _ => false) /\
-  map f_id (forwarded (stage c (fun _ => false) (matrix_fn f4_matrix) ms)) = [0; 1; 4]%N.
+  map f_id (forwarded (stage c (fun _ => false) (matrix_fn mx) ms)) = [0; 1; 4]%N.
 Proof. split; [intros _ it _; reflexivity|reflexivity]. Qed.
 
-(* the premises of C08_cli_partial are satisfiable: the binary accepts a single flag *)
-Example C08_cli_partial_nonvacuous :
-  cli_cfg (flags_of WL ["public.a"]) = Some (true, false, ["public.a"]) /\
-  cli_cfg (flags_of BL ["public.a"]) = Some (false, false, ["public.a"]).
-Proof. split; reflexivity. Qed.
+(* every single flag is accepted, so the premise of C08_cli is satisfiable for every kind *)
+Example C08_cli_nonvacuous : forall kind, exists c, cli_cfg (flags_of kind ["public.a"]) = Some c.
+Proof. intros kind. eexists. apply cli_cfg_repaired. Qed.
